@@ -477,6 +477,12 @@ def judge_c09(mb, run, result):
             out.append(Violation('facilities:locator-accessor-missing', world))
         elif _entries(acc['entries']) != comp_entries:
             out.append(Violation('facilities:locator-accessor-contents', f"{world}: accessor {acc['entries']} vs component {comp['entries']}"))
+        late = h.first('locator_after_fc')
+        if late is not None and acc['present'] == '1':
+            if late['result'] != 'ok' or late.get('present') != '1':
+                out.append(Violation('facilities:locator-accessor-missing', f"{world}: after FinalConstruct: {late.get('what', late)}"))
+            elif _entries(late['entries']) != comp_entries:
+                out.append(Violation('facilities:locator-accessor-contents', f"{world}: after FinalConstruct {late['entries']} vs component {comp['entries']}"))
     else:
         if p1 or r1:
             out.append(Violation('facilities:import-constructed-own-facilities', f'{world}: pumps={len(p1)} runtimes={len(r1)}'))
